@@ -180,6 +180,10 @@ pub fn run_explicit(spec: &CaseSpec, ops: &[Op], tag: u64) -> CaseOut {
 
 /// Delta-debugging style minimisation of the op list; `keep` decides whether a candidate still fails the same way.
 pub fn minimise(spec: &CaseSpec, ops: &[Op], sig: &str, budget: usize, mut run: impl FnMut(&CaseSpec, &[Op]) -> Vec<Violation>) -> Vec<Op> {
+    minimise_ops(ops, sig, budget, |o| run(spec, o))
+}
+
+pub fn minimise_ops(ops: &[Op], sig: &str, budget: usize, mut run: impl FnMut(&[Op]) -> Vec<Violation>) -> Vec<Op> {
     let mut cur: Vec<Op> = ops.to_vec();
     let mut tries = 0usize;
     // cut the tail after the failing op first
@@ -192,7 +196,7 @@ pub fn minimise(spec: &CaseSpec, ops: &[Op], sig: &str, budget: usize, mut run: 
             let mut cand = cur.clone();
             cand.drain(i..end);
             tries += 1;
-            let v = run(spec, &cand);
+            let v = run(&cand);
             if v.iter().any(|x| x.signature() == sig) {
                 cur = cand;
                 progressed = true;
@@ -218,7 +222,7 @@ pub fn minimise(spec: &CaseSpec, ops: &[Op], sig: &str, budget: usize, mut run: 
                     let mut cand = cur.clone();
                     cand[i] = Op::Alloc { kind, ty, size: s, owned, arena };
                     tries += 1;
-                    if run(spec, &cand).iter().any(|x| x.signature() == sig) {
+                    if run(&cand).iter().any(|x| x.signature() == sig) {
                         cur = cand;
                         break;
                     }
